@@ -31,6 +31,7 @@ pub struct DeletionQuery {
     pub nodes: Vec<NodeDelete>,
     pub node_log: Vec<NodeDeletionEntry>,
     pub updated_nodes: Vec<Node>,
+    pub updated_nodes_previous_date: Vec<i64>,
     pub edges: Vec<EdgeDelete>,
     pub edge_log: Vec<EdgeDeletionEntry>,
 }
@@ -46,6 +47,7 @@ impl DeletionQuery {
             nodes: Vec::new(),
             node_log: Vec::new(),
             updated_nodes: Vec::new(),
+            updated_nodes_previous_date: Vec::new(),
             edges: Vec::new(),
             edge_log: Vec::new(),
         };
@@ -89,6 +91,7 @@ impl DeletionQuery {
                         }
                     }
                     let mut node = *node;
+                    deletion_query.updated_nodes_previous_date.push(node.mdate);
                     node.mdate = date;
                     deletion_query.updated_nodes.push(node);
                 }
@@ -132,6 +135,17 @@ impl DeletionQuery {
         for log in &self.node_log {
             daily_log.set_need_update(log.room_id, &log.entity, log.mdate);
             daily_log.set_need_update(log.room_id, &log.entity, log.deletion_date);
+        }
+        //the source row of a deleted reference is written again with a new date
+        for (node, previous_date) in self
+            .updated_nodes
+            .iter()
+            .zip(self.updated_nodes_previous_date.iter())
+        {
+            if let Some(room_id) = &node.room_id {
+                daily_log.set_need_update(*room_id, &node._entity, *previous_date);
+                daily_log.set_need_update(*room_id, &node._entity, node.mdate);
+            }
         }
     }
 }
